@@ -1093,7 +1093,11 @@ func (t *tr) analyseExt(f *fnInfo, seen map[*fnInfo]bool) {
 	f.owned, f.addrOf = map[*types.Var]bool{}, map[*types.Var]bool{}
 	f.nErrCtor, f.errCtorIx = map[string]int{}, map[ast.Node]int{}
 	if recv := sig.Recv(); recv != nil {
-		if fs, ok := structFields(recv.Type()); ok {
+		rt := recv.Type()
+		if e, isPtr := ptrElem(rt); isPtr {
+			rt = e // a pointer receiver is assumed non-nil
+		}
+		if fs, ok := structFields(rt); ok {
 			all := true
 			for _, fv := range fs {
 				if !isAbstractType(fv.Type()) {
